@@ -22,6 +22,12 @@ OBLIGATIONS.append(dict(name="writer_init_fail_stop", harness="harness/C13_init.
     reach=["success", "failed_after_open", "failed_before_open"],
     functions=["sqfs_writer_init (lib/common/src/writer/init.c)"],
     bound="every one of the 17 steps of sqfs_writer_init may fail independently (NULL / negative error); xattr and export options symbolic"))
+OBLIGATIONS.append(dict(name="writer_finish_fail_stop", harness="harness/C14_finish.c",
+    sources=["lib/common/src/writer/finish.c", "lib/sqfs/src/write_super.c", "lib/sqfs/src/super.c"], defines=dict(IOFAIL=1),
+    unwind=18, unwindset={"sqfs_super_init.0": 22, "vp_file_write_at.0": 97}, tiers=["quick", "thorough"], timeout=600,
+    fp_map={'read_at': ['vp_file_read_at'], 'write_at': ['vp_file_write_at'], 'get_size': ['vp_file_get_size'], 'truncate': ['vp_file_truncate']}, reach=["finished", "failed"],
+    functions=["sqfs_writer_finish, padd_sqfs (lib/common/src/writer/finish.c)", "sqfs_super_write (write_super.c)"],
+    bound="every sub-writer performs 0..2 appends and may fail, every file write (also the superblock and the padding) may fail, exportable/no_xattr symbolic"))
 FPIO = {'read_at': ['vp_file_read_at'], 'write_at': ['vp_file_write_at'], 'truncate': ['vp_file_truncate'], 'get_size': ['vp_file_get_size'], 'do_block': ['cw_do_block', 'vp_cmp_do_block']}
 OBLIGATIONS.append(dict(name="blockwriter_io_failure_h1_nb1", harness="harness/C08_blockwriter.c", sources=["lib/util/src/file_cmp.c", "lib/util/src/array.c"],
     included_sources=["lib/sqfs/src/block_writer.c"], defines=dict(H=1, NB=1, SZ=2, MODE=3), unwind=10, tiers=["quick", "thorough"], timeout=300, fp_map=FPIO,
